@@ -78,10 +78,15 @@ static void observe(tdigest<T>& td, Model<T>& m, Rng& r, const std::string& afte
   VF_CHECK(throws([&] { td.get_quantile(-0.01); }), K + "quantile-below-0-answered", ctx);
   VF_CHECK(throws([&] { td.get_quantile(1.01); }), K + "quantile-above-1-answered", ctx);
   VF_CHECK(throws([&] { td.get_quantile(std::numeric_limits<double>::quiet_NaN()); }) || true, K + "quantile-NaN", ctx);
+  // the query groups below run in a random order, so that each kind of query is regularly the FIRST one after a
+  // mutation (queries compress the buffer as a side effect and could mask a stale state for the later ones)
+  const double span = double(m.mx) - double(m.mn);
+  const int first_group = int(r.below(3));
+  count(first_group == 0 ? "first_query_rank" : first_group == 1 ? "first_query_quantile" : "first_query_cdf");
+  auto rank_group = [&]() {
   // rank grid: sorted query values (dense near both extremes)
   std::vector<T> qs;
   const T inf = std::numeric_limits<T>::infinity();
-  const double span = double(m.mx) - double(m.mn);
   qs.push_back(std::nextafter(m.mn, -inf)); qs.push_back(m.mn); qs.push_back(std::nextafter(m.mn, inf));
   qs.push_back(std::nextafter(m.mx, -inf)); qs.push_back(m.mx); qs.push_back(std::nextafter(m.mx, inf));
   qs.push_back(static_cast<T>(double(m.mn) - std::fabs(double(m.mn)) - 1)); qs.push_back(static_cast<T>(double(m.mx) + std::fabs(double(m.mx)) + 1));
@@ -102,6 +107,9 @@ static void observe(tdigest<T>& td, Model<T>& m, Rng& r, const std::string& afte
     if (rk < prev) fail(K + "rank-not-monotone", ctx + " rank(" + str(prevq) + ")=" + str(prev) + " > rank(" + str(v) + ")=" + str(rk));
     prev = rk; prevq = v;
   }
+  };
+  auto quantile_group = [&]() {
+  const T inf = std::numeric_limits<T>::infinity();
   // quantile grid
   T pq = -inf; double pr = 0;
   const int QG = 400;
@@ -116,6 +124,8 @@ static void observe(tdigest<T>& td, Model<T>& m, Rng& r, const std::string& afte
   }
   VF_CHECK(td.get_quantile(0.0) == m.mn, K + "quantile-0-not-min", ctx + " got=" + str(td.get_quantile(0.0)));
   VF_CHECK(td.get_quantile(1.0) == m.mx, K + "quantile-1-not-max", ctx + " got=" + str(td.get_quantile(1.0)));
+  };
+  auto cdf_group = [&]() {
   // CDF / PMF
   {
     std::vector<T> sp;
@@ -141,6 +151,10 @@ static void observe(tdigest<T>& td, Model<T>& m, Rng& r, const std::string& afte
     std::vector<T> nanv = {std::numeric_limits<T>::quiet_NaN()};
     VF_CHECK(throws([&] { td.get_CDF(nanv.data(), 1); }), K + "NaN-split-point-accepted", ctx);
   }
+  };
+  if (first_group == 0) { rank_group(); quantile_group(); cdf_group(); }
+  else if (first_group == 1) { quantile_group(); cdf_group(); rank_group(); }
+  else { cdf_group(); rank_group(); quantile_group(); }
   // centroid bound (after the compress that queries induce)
   const uint32_t cc = centroid_count(td);
   VF_CHECK(cc <= 3u * k + 50u, K + "centroid-count-unbounded", ctx + " centroids=" + std::to_string(cc));
@@ -170,6 +184,7 @@ static void program(Rng& r) {
       if (r.chance(0.002)) { td[l]->update(std::numeric_limits<T>::quiet_NaN()); count("nan_offered"); }
       td[l]->update(stream[i]); md[l].add(stream[i]);
       if (r.chance(0.0005)) { td[l]->compress(); count("explicit_compress"); }
+      if ((i < 4 && r.chance(0.5)) || r.chance(0.0015)) { observe(*td[l], md[l], r, "mid-stream", l == 0 ? k : kl); count("mid_stream_observations"); if (i < 4) count("observed_within_first_4_values"); }
     }
     if (l == 0 || r.chance(0.5)) { Model<T>& m = md[l]; TD& t = *td[l]; uint16_t kk = l == 0 ? k : kl; observe(t, m, r, "updates", kk); }
     if (r.chance(0.2) && md[l].n > 0) {   // compress point induced by serialization, continue on the restored digest
@@ -273,7 +288,25 @@ static void shipped(Rng& r, const char* file) {
   count("shipped_images");
 }
 
+template<typename T>
+static void empty_target_scenario(Rng& r) {
+  const uint16_t ks = uint16_t(r.range(100, 1000)), kt = uint16_t(r.range(10, 60));
+  const uint64_t n = uint64_t(r.range(4 * (2 * kt + 30) + 1, 4 * (2 * ks + 10)));   // fits the source buffer, exceeds the target's
+  describe(std::string("empty-target merge ") + tname<T>() + " k_src=" + std::to_string(ks) + " k_dst=" + std::to_string(kt) + " n=" + std::to_string(n));
+  tdigest<T> src(ks), dst(kt);
+  Model<T> ms, md;
+  std::vector<T> stream; gen_stream<T>(r, int(r.below(9)), n, stream);
+  for (T v : stream) { src.update(v); ms.add(v); }
+  if (r.chance(0.3)) { tdigest<T> mid(uint16_t(r.range(10, 1000))); mid.merge(src); dst.merge(mid); }   // via an intermediate digest
+  else dst.merge(src);
+  md.merge(ms);
+  observe(dst, md, r, "merge of a fully buffered source into an empty digest of smaller k", kt);
+  observe(src, ms, r, "merge source afterwards", ks);
+  count("empty_target_scenarios");
+}
+
 void run_case(uint64_t idx, Rng& r) {
+  if (idx % 10 == 3) { if (r.coin()) empty_target_scenario<double>(r); else empty_target_scenario<float>(r); return; }
   if (idx % 100 == 31) { if (r.coin()) accuracy_cell<double>(r); else accuracy_cell<float>(r); return; }
   if (idx % 400 == 77) { shipped<double>(r, "tdigest_ref_k100_n10000_double.sk"); shipped<float>(r, "tdigest_ref_k100_n10000_float.sk"); return; }
   if (r.coin()) program<double>(r); else program<float>(r);
